@@ -157,7 +157,7 @@ func cliFloodProbe(v6 bool) string {
 		closeFn = func() { c.Close() }
 		go func() {
 			_, err := c.SendAndRead(context.Background(), clDest6, req6(uint32(cliMXidBase+1)), func(m *dhcpv6.Message) bool {
-				time.Sleep(400 * time.Microsecond) // a matcher that looks things up: the queue is never empty
+				time.Sleep(3 * time.Millisecond) // a matcher that looks things up: the queue is never empty
 				cl, _, ok := tagOf6(m)
 				return ok && cl == 'A'
 			})
@@ -175,7 +175,7 @@ func cliFloodProbe(v6 bool) string {
 		closeFn = func() { c.Close() }
 		go func() {
 			_, err := c.SendAndRead(context.Background(), clDest4, req4(uint32(cliMXidBase+1)), func(p *dhcpv4.DHCPv4) bool {
-				time.Sleep(400 * time.Microsecond)
+				time.Sleep(3 * time.Millisecond)
 				cl, _, ok := tagOf4(p)
 				return ok && cl == 'A'
 			})
@@ -229,6 +229,12 @@ func cliIdenticalAnswersProbe(v6 bool, calls int) string {
 			}()
 			time.Sleep(5 * time.Millisecond)
 			conn.inject(append([]byte{}, answer...))
+			if k%2 == 1 {
+				// the server's answer arrives twice (a relay that duplicates, two servers
+				// configured alike): the copy nobody waits for is dropped, not kept for a
+				// later call (seeded change C12-13: recycled response channels not drained)
+				conn.inject(append([]byte{}, answer...))
+			}
 			out := <-done
 			sent := len(conn.snapshot()) - sent0
 			if out != "resp0" || sent != 1 {
@@ -236,10 +242,132 @@ func cliIdenticalAnswersProbe(v6 bool, calls int) string {
 			}
 			time.Sleep(100 * time.Millisecond)
 		}
+		for k := 0; k < 2 && what == ""; k++ {
+			// and then nobody answers: the call runs its whole schedule
+			sent0 := len(conn.snapshot())
+			t0 := time.Now()
+			out := cl.call(context.Background(), x+uint32(k), func(class byte, idx int) bool { return class == 'A' }, false)
+			sent := len(conn.snapshot()) - sent0
+			if out != "noresp" || sent != 2 || time.Since(t0) != 1500*time.Millisecond {
+				what = fmt.Sprintf("after %d answered exchanges (every other answer delivered twice) a call nobody answers (transaction id %#x) ended with %s after %d transmissions and %v; want the no-response error after 2 transmissions and 1.5s", calls, x+uint32(k), out, sent, time.Since(t0))
+			}
+		}
 		cl.close()
 	})
 	if status != "ok" && what == "" {
 		what = "identical-answers probe: bubble ended with " + status
 	}
 	return what
+}
+
+// Probe "closed while transmitting" of oracle c11 (free-running, ordered by channels):
+// a call is inside the connection's WriteTo - the transmission is slow - while Close
+// runs to completion; then the transmission completes successfully.  The call must end
+// with the no-response error ("errors are raised from the call that is running when
+// Close happens"), never with (nil, nil), a panic or a hang.
+// (seeded change C11-14: Close releasing the pending entries by closing their channels
+// after the receive loop ended - a caller that was not parked yet finds both its closed
+// channel and the closed client and picks one at random.)
+type slowWriteConn struct {
+	closed   chan struct{}
+	entered  chan struct{}
+	release  chan struct{}
+	writes   atomic.Int32
+	lateSend atomic.Int32
+}
+
+func (c *slowWriteConn) ReadFrom(b []byte) (int, net.Addr, error) {
+	<-c.closed
+	return 0, nil, net.ErrClosed
+}
+func (c *slowWriteConn) WriteTo(b []byte, a net.Addr) (int, error) {
+	if c.writes.Add(1) == 1 {
+		close(c.entered)
+		<-c.release
+	}
+	return len(b), nil
+}
+func (c *slowWriteConn) Close() error {
+	select {
+	case <-c.closed:
+	default:
+		close(c.closed)
+	}
+	return nil
+}
+func (c *slowWriteConn) LocalAddr() net.Addr                { return &net.UDPAddr{IP: net.IPv4zero, Port: 68} }
+func (c *slowWriteConn) SetDeadline(t time.Time) error      { return nil }
+func (c *slowWriteConn) SetReadDeadline(t time.Time) error  { return nil }
+func (c *slowWriteConn) SetWriteDeadline(t time.Time) error { return nil }
+
+func cliCloseWhileWritingProbe(v6 bool, rounds int) string {
+	bad := map[string]int{}
+	for i := 0; i < rounds; i++ {
+		conn := &slowWriteConn{closed: make(chan struct{}), entered: make(chan struct{}), release: make(chan struct{})}
+		done := make(chan string, 1)
+		var closeFn func()
+		run := func(f func() (bool, error), noResp error) {
+			go func() {
+				defer func() {
+					if r := recover(); r != nil {
+						done <- fmt.Sprint("panicked: ", r)
+					}
+				}()
+				isNil, err := f()
+				switch {
+				case err == nil && isNil:
+					done <- "returned (nil, nil): neither a message nor an error"
+				case err == nil:
+					done <- "returned a message nobody sent"
+				case err == noResp:
+					done <- ""
+				default:
+					done <- "returned the error " + err.Error()
+				}
+			}()
+		}
+		if v6 {
+			c, err := nclient6.NewWithConn(conn, clHW, nclient6.WithTimeout(50*time.Millisecond), nclient6.WithRetry(2))
+			if err != nil {
+				return ""
+			}
+			closeFn = func() { c.Close() }
+			run(func() (bool, error) {
+				m, err := c.SendAndRead(context.Background(), clDest6, req6(uint32(cliMXidBase+3)), nil)
+				return m == nil, err
+			}, nclient6.ErrNoResponse)
+		} else {
+			c, err := nclient4.NewWithConn(conn, clHW, nclient4.WithTimeout(50*time.Millisecond), nclient4.WithRetry(2))
+			if err != nil {
+				return ""
+			}
+			closeFn = func() { c.Close() }
+			run(func() (bool, error) {
+				p, err := c.SendAndRead(context.Background(), clDest4, req4(uint32(cliMXidBase+3)), nil)
+				return p == nil, err
+			}, nclient4.ErrNoResponse)
+		}
+		<-conn.entered
+		closed := make(chan struct{})
+		go func() { closeFn(); close(closed) }()
+		select {
+		case <-closed:
+		case <-time.After(5 * time.Second):
+			close(conn.release)
+			return "Close did not return within 5 s while a call was inside a slow WriteTo"
+		}
+		close(conn.release)
+		select {
+		case r := <-done:
+			if r != "" {
+				bad[r]++
+			}
+		case <-time.After(5 * time.Second):
+			return "a call whose slow transmission completed after Close had returned is still running 5 s later (schedule: 150 ms)"
+		}
+	}
+	for r, n := range bad {
+		return fmt.Sprintf("in %d of %d rounds a call whose first transmission completed after Close had returned %s; want the no-response error", n, rounds, r)
+	}
+	return ""
 }
